@@ -311,7 +311,7 @@ func (gen *generator) irGlobal(new *ir.Global, old *ast.GlobalDecl) error {
 		case *ast.Comdat:
 			// When comdat name is omitted, the global name is used as an implicit
 			// comdat name.
-			name := new.Name()
+			name := new.GlobalName
 			if n, ok := globalField.Name(); ok {
 				name = comdatName(n)
 			}
@@ -578,7 +578,7 @@ func (gen *generator) irFuncHeader(new *ir.Func, old ast.FuncHeader) error {
 		case *ast.Comdat:
 			// When comdat name is omitted, the function name is used as an implicit
 			// comdat name.
-			name := new.Name()
+			name := new.GlobalName
 			if n, ok := funcHdrField.Name(); ok {
 				name = comdatName(n)
 			}
